@@ -8,7 +8,7 @@ import traceback
 import hypothesis
 from hypothesis import HealthCheck, Phase, given, settings
 
-from .common import ShardResult, canon, derive_seed, spec_hash
+from .common import ShardResult, canon, derive_seed, leave_crumb, spec_hash
 
 
 class Outcome:
@@ -52,6 +52,7 @@ def drive(strategy, evaluate, n_examples: int, seed_parts, res: ShardResult, shr
         o = cache.get(h)
         first = o is None
         if first:
+            leave_crumb(case)
             try:
                 o = evaluate(case)
             except Exception:  # harness bug: never a verdict
